@@ -145,6 +145,7 @@ def catalogue():
         yield 'mixed', lambda: {'b': U.CA([L(1), (L(2), None)], 1), 'a': [U.CB([L(3)], 2, [[1, 1]]), deque([L(4)], maxlen=2)],
                                 'c': U.NT2(L(5), OrderedDict(x=L(6)))}, ''
         yield 'hooked-keys', lambda: {U.KHook(2): L(1), U.KHook(1): (L(2), L(3)), U.KHook(3): [L(4)]}, ''
+        yield 'mixed-hooked-keys', lambda: {U.KHook(2): L(1), 1: L(2), U.KHook(1): (L(3),), 'a': L(4), U.KHook(3): L(5)}, ''
         yield 'hooked-meta', lambda: [U.CM([L(1), L(2)], 1), (U.CM([L(3)], 2),), defaultdict(list, {U.KHook(1): L(4)})], 'm'
         yield 'nested-custom', lambda: U.CA([U.CB([U.CC([L(1)], 1), L(2)], 1, [[1, 1], [1, 2]]), {'k': L(3)}], 3), 'a'
 
@@ -159,52 +160,52 @@ def catalogue():
     F = lambda rec: (lambda x, *r: (rec('f', x), x)[1])           # noqa: E731
 
     @op('tree_flatten')
-    def _(o, ns, rec): return optree.tree_flatten(o, P(rec), namespace=ns)
+    def _(o, ns, rec, s0): return optree.tree_flatten(o, P(rec), namespace=ns)
     @op('tree_flatten_with_path')
-    def _(o, ns, rec): return optree.tree_flatten_with_path(o, P(rec), namespace=ns)
+    def _(o, ns, rec, s0): return optree.tree_flatten_with_path(o, P(rec), namespace=ns)
     @op('tree_flatten_with_accessor')
-    def _(o, ns, rec): return optree.tree_flatten_with_accessor(o, P(rec), namespace=ns)
+    def _(o, ns, rec, s0): return optree.tree_flatten_with_accessor(o, P(rec), namespace=ns)
     @op('tree_iter')
-    def _(o, ns, rec): return list(optree.tree_iter(o, P(rec), namespace=ns))
+    def _(o, ns, rec, s0): return list(optree.tree_iter(o, P(rec), namespace=ns))
     @op('tree_leaves+structure')
-    def _(o, ns, rec): return optree.tree_leaves(o, P(rec), namespace=ns), optree.tree_structure(o, P(rec), namespace=ns)
+    def _(o, ns, rec, s0): return optree.tree_leaves(o, P(rec), namespace=ns), optree.tree_structure(o, P(rec), namespace=ns)
     @op('tree_is_leaf/all_leaves')
-    def _(o, ns, rec): return optree.tree_is_leaf(o, P(rec), namespace=ns), optree.all_leaves([o, o], P(rec), namespace=ns)
+    def _(o, ns, rec, s0): return optree.tree_is_leaf(o, P(rec), namespace=ns), optree.all_leaves([o, o], P(rec), namespace=ns)
     @op('tree_map')
-    def _(o, ns, rec): return optree.tree_map(F(rec), o, is_leaf=P(rec), namespace=ns)
+    def _(o, ns, rec, s0): return optree.tree_map(F(rec), o, is_leaf=P(rec), namespace=ns)
     @op('tree_map_(rest)')
-    def _(o, ns, rec): return optree.tree_map_(F(rec), o, o, namespace=ns)
+    def _(o, ns, rec, s0): return optree.tree_map_(F(rec), o, o, namespace=ns)
     @op('tree_map_with_path')
-    def _(o, ns, rec): return optree.tree_map_with_path(lambda p, x: F(rec)(x), o, namespace=ns)
+    def _(o, ns, rec, s0): return optree.tree_map_with_path(lambda p, x: F(rec)(x), o, namespace=ns)
     @op('tree_map_with_accessor')
-    def _(o, ns, rec): return optree.tree_map_with_accessor(lambda a, x: F(rec)(x), o, namespace=ns)
+    def _(o, ns, rec, s0): return optree.tree_map_with_accessor(lambda a, x: F(rec)(x), o, namespace=ns)
     @op('tree_reduce/sum/max/all')
-    def _(o, ns, rec):
+    def _(o, ns, rec, s0):
         return (optree.tree_reduce(lambda a, b: (rec('f', b), a)[1], o, namespace=ns), optree.tree_all(o, is_leaf=P(rec), namespace=ns),
                 optree.tree_any(o, is_leaf=P(rec), namespace=ns))
     @op('unflatten/traverse/walk')
-    def _(o, ns, rec):
+    def _(o, ns, rec, s0):
         l, s = optree.tree_flatten(o, namespace=ns)
         return (s.unflatten(iter(l)), s.traverse(l, lambda n: (rec('f_node', None), n)[1], lambda x: (rec('f_leaf', x), x)[1]),
                 s.walk(l, lambda t, d, c: (rec('f_node', None), c)[1], lambda x: (rec('f_leaf', x), x)[1]))
     @op('flatten_up_to/broadcast')
-    def _(o, ns, rec):
+    def _(o, ns, rec, s0):
         s = optree.tree_structure(o, namespace=ns)
         return s.flatten_up_to(o), optree.tree_broadcast_prefix(o, o, namespace=ns), optree.tree_broadcast_common(o, o, namespace=ns)
     @op('tree_broadcast_map/transpose_map')
-    def _(o, ns, rec):
+    def _(o, ns, rec, s0):
         return optree.tree_broadcast_map(F(rec), o, o, namespace=ns), optree.tree_transpose_map(lambda x: (rec('f', x), (x, x))[1], o, namespace=ns)
     @op('spec ==/hash/repr/is_prefix/compose/transform')
-    def _(o, ns, rec):
-        a, b = optree.tree_structure(o, namespace=ns), optree.tree_structure(o, namespace=ns)
-        return (a == b, hash(a), repr(a), a.is_prefix(b), a.compose(b).num_leaves, a.broadcast_to_common_suffix(b),
+    def _(o, ns, rec, s0):
+        a, b = s0, optree.tree_structure(o, namespace=ns)      # s0: the treespec whose hash/repr is re-checked after the failure
+        return (a == b, hash(a), repr(a), str(a), {a: 1}[a], a.is_prefix(b), a.compose(b).num_leaves, a.broadcast_to_common_suffix(b),
                 a.transform(lambda s: (rec('f_node', None), s)[1], lambda s: (rec('f_leaf', None), s)[1]))
     @op('prefix_errors/flatten_one_level/pickle')
-    def _(o, ns, rec):
+    def _(o, ns, rec, s0):
         import pickle
         return optree.prefix_errors(o, o, namespace=ns), optree.tree_flatten_one_level(o, namespace=ns), pickle.loads(pickle.dumps(optree.tree_structure(o, namespace=ns)))
     @op('treespec_from_collection/dict')
-    def _(o, ns, rec):
+    def _(o, ns, rec, s0):
         s = optree.tree_structure(o, namespace=ns)
         kids = s.children()
         return optree.treespec_from_collection(optree.tree_unflatten(s.one_level(), kids), namespace=ns) if s.one_level() is not None else None
@@ -216,9 +217,10 @@ def catalogue():
             o = mk()
             ctx = U.Ctx()
             rec = Recorder(ctx, 0)
+            dry_spec = optree.tree_structure(o, namespace=ns)       # made before the hook is armed
             U.HOOK = rec
             try:
-                fn(o, ns, rec)
+                fn(o, ns, rec, dry_spec)
                 dry_err = None
             except Exception as ex:   # noqa: BLE001
                 dry_err = type(ex).__name__
@@ -243,7 +245,7 @@ def catalogue():
                 U.HOOK = rec
                 res, problem = None, None
                 try:
-                    res = fn(o, ns, rec)
+                    res = fn(o, ns, rec, spec0)
                     problem = 'no exception although callback %d raised' % k
                 except Boom as ex:
                     if ex is not rec.boom:
@@ -262,7 +264,7 @@ def catalogue():
                 summary['faults'] += 1
                 if problem is None and after != before:
                     problem = f'reference counts changed by {[a - b for a, b in zip(after, before) if a != b]}'
-                if problem is None and (hash(spec0) != h0 or repr(spec0) != r0):
+                if problem is None and (hash(spec0) != h0 or repr(spec0) != r0 or hash(spec0) != hash(optree.tree_structure(o, namespace=ns))):
                     problem = 'hash/repr of an existing treespec changed after the failed call (stale guard)'
                 if problem is None and state_fingerprint() != fp0:
                     problem = 'process-wide registry / mode state changed'
